@@ -204,12 +204,12 @@ theorem getFuncASTSrc_line01 (src : Bytes) (root : Node) (hf : root.isFuncDecl =
 this walk followed by the type extraction of the declaration found: the
 oracle `Parsed.funcAt` of PP/Model/AugmentGlue.lean is discharged for every
 tree -/
-theorem glue_getFuncAST (offsets : List Nat) (root : Node) (types : Nat → List Bytes × Bool)
+theorem glue_getFuncAST (offsets : List Nat) (root : Node) (types : Nat → Option (List Bytes × Bool))
     (f : Bytes) (l : Nat) :
     AugGlue.ParsedFile.getFuncAST ⟨offsets, toParsed offsets root types⟩ f l =
       match getFuncAST offsets root l with
       | .error _ => .error .lineOver
-      | .ok r => .ok (r.map types) := by
+      | .ok r => .ok (r.bind types) := by
   unfold AugGlue.ParsedFile.getFuncAST
   by_cases h : offsets.length ≤ l
   · simp only [h, if_true, getFuncAST_lineOver offsets root l h]
